@@ -38,6 +38,8 @@ pub struct Caps {
     pub abort_before_start: bool,
     pub done: bool,
     pub command_api: bool,
+    /// the host holds the command object and can extend it from outside
+    pub extend: bool,
 }
 
 pub trait Host {
@@ -177,6 +179,7 @@ impl<Ef: LabEffect> Host for Direct<Ef> {
             abort_before_start: true,
             done: true,
             command_api: true,
+            extend: true,
         }
     }
     fn prepare(&mut self, program: &Cmd) {
@@ -207,6 +210,10 @@ impl<Ef: LabEffect> Host for Direct<Ef> {
                 }
             }
             Action::Noop => {}
+            Action::Extend(c) => {
+                let cmd = self.cmd.take().expect("started");
+                self.cmd = Some(cmd.and(build::<Ef>(c)));
+            }
         }
         self.observe(&mut out);
         out
@@ -309,6 +316,7 @@ impl<Ef: LabEffect> Host for StreamHost<Ef> {
             abort_before_start: true,
             done: true,
             command_api: true,
+            extend: true,
         }
     }
     fn prepare(&mut self, program: &Cmd) {
@@ -340,6 +348,15 @@ impl<Ef: LabEffect> Host for StreamHost<Ef> {
                 }
             }
             Action::Noop => {}
+            Action::Extend(c) => {
+                let cmd = self.cmd.take().expect("started");
+                // SAFETY-free: Command is Unpin, so it can be moved out of the pinned box
+                let cmd = *std::pin::Pin::into_inner(cmd);
+                self.cmd = Some(Box::pin(cmd.and(build::<Ef>(c))));
+                // `and` queues a task without waking anybody: the holder polls after extending
+                self.flag.0.store(true, Ordering::SeqCst);
+                self.ended = false;
+            }
         }
         let woken = self.flag.0.load(Ordering::SeqCst);
         self.drain(woken, false, &mut out);
@@ -348,6 +365,188 @@ impl<Ef: LabEffect> Host for StreamHost<Ef> {
     fn finish(&mut self) -> Vec<String> {
         self.table.clear();
         self.cmd = None;
+        vec![]
+    }
+}
+
+// ---------------------------------------------------------------------------
+// EagerHost: a stream host whose waker polls the command at once, from inside `wake`
+// (an inline executor). Only outputs found by a poll that a wake asked for count.
+// ---------------------------------------------------------------------------
+
+struct EagerShared<Ef: LabEffect> {
+    cmd: Option<std::pin::Pin<Box<Command<Ef, Event>>>>,
+    effects: Vec<Ef>,
+    events: Vec<Event>,
+    ended: bool,
+    /// outputs found by the last probe poll that nobody asked for
+    unasked: usize,
+}
+
+struct EagerWaker<Ef: LabEffect> {
+    shared: std::sync::Mutex<EagerShared<Ef>>,
+    /// wake arrived while the command was being polled: poll again afterwards
+    again: AtomicBool,
+    me: std::sync::Mutex<Option<std::sync::Weak<EagerWaker<Ef>>>>,
+}
+
+impl<Ef: LabEffect> EagerWaker<Ef> {
+    fn poll_now(self: &Arc<Self>, asked: bool) {
+        let Ok(mut sh) = self.shared.try_lock() else {
+            // re-entrant wake (a task woke itself while being polled)
+            self.again.store(true, Ordering::SeqCst);
+            return;
+        };
+        let waker: Waker = self.clone().into();
+        let mut cx = Context::from_waker(&waker);
+        loop {
+            self.again.store(false, Ordering::SeqCst);
+            if sh.ended || sh.cmd.is_none() {
+                break;
+            }
+            let mut produced = 0;
+            loop {
+                let cmd = sh.cmd.as_mut().unwrap();
+                match cmd.as_mut().poll_next(&mut cx) {
+                    Poll::Ready(Some(CommandOutput::Effect(e))) => {
+                        produced += 1;
+                        sh.effects.push(e)
+                    }
+                    Poll::Ready(Some(CommandOutput::Event(e))) => {
+                        produced += 1;
+                        sh.events.push(e)
+                    }
+                    Poll::Ready(None) => {
+                        sh.ended = true;
+                        break;
+                    }
+                    Poll::Pending => break,
+                }
+            }
+            if !asked {
+                sh.unasked += produced;
+            }
+            if !self.again.load(Ordering::SeqCst) {
+                break;
+            }
+        }
+    }
+}
+
+impl<Ef: LabEffect> Wake for EagerWaker<Ef> {
+    fn wake(self: Arc<Self>) {
+        self.poll_now(true);
+    }
+    fn wake_by_ref(self: &Arc<Self>) {
+        self.poll_now(true);
+    }
+}
+
+pub struct EagerHost<Ef: LabEffect> {
+    w: Arc<EagerWaker<Ef>>,
+    table: HashMap<Key, ReqObj>,
+}
+
+impl<Ef: LabEffect> EagerHost<Ef> {
+    pub fn new() -> Self {
+        EagerHost {
+            w: Arc::new(EagerWaker {
+                shared: std::sync::Mutex::new(EagerShared {
+                    cmd: None,
+                    effects: vec![],
+                    events: vec![],
+                    ended: false,
+                    unasked: 0,
+                }),
+                again: AtomicBool::new(false),
+                me: std::sync::Mutex::new(None),
+            }),
+            table: HashMap::new(),
+        }
+    }
+
+    fn collect(&mut self, first: bool, out: &mut Obs) {
+        // probe: a poll nobody asked for must not find new output (lost wake-up otherwise)
+        self.w.poll_now(first);
+        let mut sh = self.w.shared.lock().unwrap();
+        let effects = std::mem::take(&mut sh.effects);
+        let events = std::mem::take(&mut sh.events);
+        if sh.unasked > 0 {
+            out.anomalies.push(format!(
+                "lost wake-up: {} output(s) were ready but the host's waker was never woken",
+                sh.unasked
+            ));
+            sh.unasked = 0;
+        }
+        out.done = Some(sh.ended);
+        if let Some(cmd) = sh.cmd.as_ref() {
+            out.live_tasks = Some(cmd.verif_stats().live_tasks);
+        }
+        drop(sh);
+        for e in effects {
+            obs_effect(e, &mut self.table, out);
+        }
+        for e in events {
+            obs_event(e, out);
+        }
+    }
+}
+
+impl<Ef: LabEffect> Host for EagerHost<Ef> {
+    fn name(&self) -> &'static str {
+        "EagerHost"
+    }
+    fn caps(&self) -> Caps {
+        Caps {
+            drop: true,
+            reresolve: true,
+            resolve_never_twice: true,
+            abort_before_start: true,
+            done: true,
+            command_api: true,
+            extend: false,
+        }
+    }
+    fn prepare(&mut self, program: &Cmd) {
+        let _ = &self.w.me;
+        self.w.shared.lock().unwrap().cmd = Some(Box::pin(build::<Ef>(program)));
+    }
+    fn first_poll(&mut self) -> Obs {
+        let mut out = Obs::default();
+        self.collect(true, &mut out);
+        out
+    }
+    fn start(&mut self, program: &Cmd) -> Obs {
+        self.prepare(program);
+        self.first_poll()
+    }
+    fn act(&mut self, action: &Action) -> Obs {
+        let mut out = Obs::default();
+        let mut asked = false;
+        match action {
+            Action::Resolve { site, arg, val } => {
+                let obj = self.table.get_mut(&(*site, *arg)).expect("request in table");
+                out.resolve_ok = Some(resolve_obj(obj, *val));
+            }
+            Action::DropReq { site, arg } => {
+                drop(self.table.remove(&(*site, *arg)).expect("request in table"));
+            }
+            Action::Abort { handle } => {
+                if !call_abort(*handle) {
+                    out.anomalies.push(format!("abort handle {handle} not registered"));
+                }
+                // an abort wakes nobody; the holder of the handle polls afterwards
+                asked = true;
+            }
+            Action::Noop => {}
+            Action::Extend(_) => unreachable!(),
+        }
+        self.collect(asked, &mut out);
+        out
+    }
+    fn finish(&mut self) -> Vec<String> {
+        self.table.clear();
+        self.w.shared.lock().unwrap().cmd = None;
         vec![]
     }
 }
@@ -447,6 +646,7 @@ where
             abort_before_start: false,
             done: false,
             command_api: !self.legacy,
+            extend: false,
         }
     }
     fn start(&mut self, program: &Cmd) -> Obs {
@@ -492,6 +692,7 @@ where
                 self.core.process_event(Event::Noop)
             }
             Action::Noop => self.core.process_event(Event::Noop),
+            Action::Extend(_) => unreachable!("the core owns the command"),
         };
         self.observe(effects, &mut out);
         out
@@ -728,6 +929,7 @@ where
             abort_before_start: false,
             done: false,
             command_api: true,
+            extend: false,
         }
     }
     fn start(&mut self, program: &Cmd) -> Obs {
@@ -767,6 +969,7 @@ where
                 self.send_event(&Event::Noop)
             }
             Action::Noop => self.send_event(&Event::Noop),
+            Action::Extend(_) => unreachable!("the core owns the command"),
         };
         self.observe(r, &mut out);
         out
